@@ -53,11 +53,14 @@ def xerrName : XErr → String
 def handleMar (cfg T V : String) (rest : List String) : Option String := do
   let bits ← cfg.toNat?
   let t ← parseType T
-  let v ← parseVal V
+  let v0 ← parseVal V
   let o := Enc.optsOfCfg bits
   let co : COpts := {}
+  let v ← match prepV t v0 with
+    | some v => some v
+    | none => some v0
   let out := Enc.field rest "out"
-  let sub := if Sub t && Conf t v && decide (need t ≤ maxStack) then "1" else "0"
+  let sub := if Sub t && Conf co t v && decide (needV t v ≤ maxStack) then "1" else "0"
   if !noLib t || !valOK v || !tagOK co 0 t then pure "model=unsupported"
   else
     let spec := encode o t v
